@@ -194,3 +194,18 @@ Theorem C04_filter_history_owned :
   below 9 filtered_example /\ path_copied MCopy history_path filtered_example = true.
 Proof. exact (conj prefiltered_step (conj construct_step history_example)). Qed.
 Print Assumptions C04_filter_history_owned.
+
+(* ---- thorough tier and seed robustness -------------------------------------------- *)
+
+(* An operation that a class refuses outright (DimensionCoordinate.insert_dimension:
+   the data must stay 1-d) is refused in BOTH forms: same outcome with the switch
+   on or off, receiver untouched, no placeholder. *)
+Theorem C04_refusing_op_consistent :
+  forall g n x,
+  let off := call g false refusing_body n x in
+  let on := call g true refusing_body n x in
+  a_outcome off = Raised /\ a_outcome on = Raised /\
+  a_receiver off = x /\ a_receiver on = x /\
+  a_placeholder off = None /\ a_placeholder on = None.
+Proof. exact refusing_consistent. Qed.
+Print Assumptions C04_refusing_op_consistent.
